@@ -3,16 +3,17 @@ import RJson.Gen.Facts
 # The constants the hand models copy from the hand-written Go are the constants of the current source
 
 `gofacts` lists, for every function of the hand-written Go (internal/fp, simple_readers.go, token.go,
-machine_helpers.go, complex_readers.go, decode.go, rjson.go), its integer / float / character literals (sorted, so that
-reordering statements does not matter; strings such as error texts are left out). The hand models in `Model/*.lean`
+machine_helpers.go, complex_readers.go, decode.go, rjson.go), its integer / float / character literals and, behind `;;`, its operators and jump statements (`<`, `>=`, `+=`,
+`break`, `return`, …; unary ones prefixed with `u`) — each list sorted, so that reordering statements does not matter; strings
+such as error texts are left out. The hand models in `Model/*.lean`
 were written against exactly these constants — `310` / `330` in `floatBits`, `22` and `15` in `atof64exact`, `0x1f` in
-the string readers, the digit bounds of the integer readers, ... A changed, added or removed literal fails the
+the string readers, the digit bounds of the integer readers, ... A changed, added or removed literal or operator (a `<` that became `<=`, a dropped `break`) fails the
 comparison below on the next run, before any input is tried; named constants and tables are regenerated separately
 (`Gen/Tables.lean`).
 -/
 namespace RJson.Literals
 
 theorem literalsComplexReaders_expected : Gen.Facts.literalsComplexReaders =
-    [("ReadArray", ""), ("ReadObject", ""), ("ReadValue", ""), ("ValueReader.HandleArrayValue", ""), ("ValueReader.HandleObjectValue", "'\\\\' 0 0 0"), ("ValueReader.ReadArray", "0 0 0 0 0 1"), ("ValueReader.ReadObject", "0 0 0 0 1"), ("ValueReader.ReadValue", ""), ("ValueReader.borrowValueReader", "0 1 1"), ("ValueReader.readSimpleValue", "0"), ("ValueReader.returnValueReader", "0"), ("readArrayCompat", "'['"), ("readObjectCompat", "'{'"), ("readValueCompat", "")] := by decide +kernel
+    [("ReadArray", " ;; return"), ("ReadObject", " ;; return"), ("ReadValue", " ;; return"), ("ValueReader.HandleArrayValue", " ;; != + -- == > > return return return return"), ("ValueReader.HandleObjectValue", "'\\\\' 0 0 0 ;; != != + ++ -- < == == > > break return return return return return"), ("ValueReader.ReadArray", "0 0 0 0 0 1 ;; != && == == == == == return return return u&"), ("ValueReader.ReadObject", "0 0 0 0 1 ;; != && == == == == == return return return u&"), ("ValueReader.ReadValue", " ;; != != + + -- return return return"), ("ValueReader.borrowValueReader", "0 1 1 ;; + + return u! u&"), ("ValueReader.readSimpleValue", "0 ;; return return return return return"), ("ValueReader.returnValueReader", "0 ;; "), ("readArrayCompat", "'[' ;; != != != return return return return u&"), ("readObjectCompat", "'{' ;; != != != return return return return u&"), ("readValueCompat", " ;; != return return u&")] := by decide +kernel
 
 end RJson.Literals
